@@ -123,4 +123,9 @@ class Subroutine:  # pylint: disable=too-many-instance-attributes
         Returns:
             Returns a list of subroutines called by the subroutine.
         """
-        return list(set(bi.called_subroutine for bi in self._blocks if bi.is_callsub_block))
+        # in the order of the call sites: the order of a set of objects changes from run to run.
+        called: List["Subroutine"] = []
+        for bi in self._blocks:
+            if bi.is_callsub_block and bi.called_subroutine not in called:
+                called.append(bi.called_subroutine)
+        return called
